@@ -808,7 +808,15 @@ impl<'a> LiveEvents<'a> {
     ///
     /// Returns `true` if a new document was found, `false` if EOF was reached.
     /// Syntax errors during skipping cause the method to return `false` (EOF-like).
+    ///
+    /// When the input ended because the reader failed (or the input cap was hit), that error is
+    /// still waiting to be reported: `true` is returned so that the caller polls once more and
+    /// receives it, instead of ending the stream as if it were complete.
     pub(crate) fn skip_to_next_document(&mut self) -> bool {
+        self.skip_to_next_document_impl() || self.error.borrow().is_some()
+    }
+
+    fn skip_to_next_document_impl(&mut self) -> bool {
         // Clear any peeked event and injection state
         self.look = None;
         self.inject.clear();
